@@ -23,6 +23,22 @@ import EinoV.Expected.C11
 
   {"k":"alloc","tree":{"s":bool,"subs":[…]},"runs":k}
   → {"runs":[[addr|null …pre-order…]…]}
+
+  {"k":"chain","ctrs":n,"in":"x",
+   "levels":[{"s":bool,"par":i|-1,"depth":d}…],          -- graph levels, pre-order (parents first)
+   "prog":[{"l":lvl,"g":gid,"op":opspec}…],              -- the state operations / local steps of a
+                                                         --   sequential nest of graphs, execution order
+   "cuts":[{"p":pos,"active":[lvl…],"mod":D|null}…]}     -- interrupt before prog[p]; the levels active
+                                                         --   there (outermost first); resumed with the
+                                                         --   modifier ctr[0] += D*(depth+1), or without
+  → {"out":v,"err":null|"no-state","cells":[{"ctr","seq","order"}…],"vis":[cell|null…],
+     "touched":[[cell…]…],"atCut":[[{"l","ctr","seq","order"}…]…]}
+  (`resumePath` / `visible` with the Expected resume facts decide which cell a level works on
+   after each resume)
+
+  {"k":"locks","top":bool,"restored":r,"init":{"ctr","seq"},"tasks":[{"in","ops"}…],"micro":seed}
+  → {"locks":[mutex id per task],"done":b,"ctr":[..],"seq":n}
+  (`runL` with `resumeLockOf` of the Expected facts under a pseudo-random interleaving)
 -/
 namespace EinoV.Oracle.C11
 open Lean EinoV EinoV.C11
@@ -186,10 +202,159 @@ def handleAlloc (c : Json) : JE Json := do
   pure <| Json.mkObj [("runs", J.mkArr (runs.map fun l =>
     J.mkArr (l.map fun | some a => (a : Json) | none => Json.null)))]
 
+/-! ### resume family: a sequential nest of graph levels, interrupted and resumed -/
+
+structure StL where
+  ctr : List Nat
+  seq : Nat
+  order : List Nat
+
+def stLJson (s : StL) : Json :=
+  Json.mkObj [("ctr", J.mkNats s.ctr), ("seq", (s.seq : Json)), ("order", J.mkNats s.order)]
+
+structure Lvl where
+  stateful : Bool
+  par : Option Nat
+  depth : Nat
+
+structure ChainSt where
+  cells : List StL
+  vis : List (Option Nat)
+  v : String
+  err : Option String
+  touched : List (List Nat)
+
+def visOf (levels : List Lvl) (seenAt : Nat → Option (Seen StL)) : List (Option Nat) :=
+  (List.range levels.length).foldl (fun (acc : List (Option Nat)) i =>
+    let inh : Option Nat :=
+      match (levels[i]?).bind (·.par) with
+      | some p => acc.getD p none
+      | none => none
+    let own : Option Nat :=
+      match seenAt i with
+      | some (.own _) => some i
+      | some .inherited => inh
+      | none => if (levels[i]?.map (·.stateful)).getD false then some i else inh
+    acc ++ [own]) []
+
+def touch (t : List (List Nat)) (l c : Nat) : List (List Nat) :=
+  t.modify l (fun cs => if cs.contains c then cs else cs ++ [c])
+
+/-- one state operation of level `l`, `upd` acting on the cell that level sees -/
+def onCell (st : ChainSt) (l : Nat) (upd : StL → String → StL × String) : ChainSt :=
+  match st.err with
+  | some _ => st
+  | none =>
+    match st.vis.getD l none with
+    | none => { st with err := some "no-state" }
+    | some c =>
+      match st.cells[c]? with
+      | none => { st with err := some "no-state" }
+      | some cell =>
+        let r := upd cell st.v
+        { st with cells := st.cells.set c r.1, v := r.2, touched := touch st.touched l c }
+
+def repeatN {α : Type} (f : α → α) : Nat → α → α
+  | 0, a => a
+  | n + 1, a => repeatN f n (f a)
+
+def chainOp (st : ChainSt) (l g : Nat) (j : Json) : JE ChainSt := do
+  match (← J.str j "o") with
+  | "tag" => do let t ← J.str j "t"; pure (if st.err.isSome then st else { st with v := st.v ++ "|" ++ t })
+  | "stamp" => do
+    let tag ← J.str j "tag"
+    pure <| onCell st l fun s v =>
+      ({ s with seq := s.seq + 1, order := s.order ++ [g] }, v ++ "|" ++ tag ++ toString s.seq)
+  | "inc" => do
+    let c ← J.nat j "c"
+    let d ← J.nat j "d"
+    pure <| repeatN (fun st => onCell st l fun s v =>
+      ({ s with ctr := s.ctr.modify c (· + d), order := s.order ++ [g] }, v)) (J.natD j "rep" 1) st
+  | o => throw s!"bad chain op {o}"
+
+def handleChain (c : Json) : JE Json := do
+  let ctrs ← J.nat c "ctrs"
+  let levels ← (← J.arr c "levels").mapM fun lj => do
+    let par := match (J.fieldD lj "par" Json.null).getNat? with | .ok n => some n | .error _ => none
+    pure (⟨J.boolD lj "s" false, par, J.natD lj "depth" 0⟩ : Lvl)
+  let prog ← J.arr c "prog"
+  let cuts ← (← J.arr c "cuts").mapM fun cj => do
+    let modD := match (J.fieldD cj "mod" Json.null).getNat? with | .ok n => some n | .error _ => none
+    pure ((← J.nat cj "p"), (← J.natList cj "active"), modD)
+  let fresh : StL := ⟨List.replicate ctrs 0, 0, []⟩
+  let n := levels.length
+  let mut st : ChainSt :=
+    { cells := List.replicate n fresh, vis := visOf levels (fun _ => none), v := ← J.str c "in",
+      err := none, touched := List.replicate n [] }
+  let mut atCut : List Json := []
+  let mut pos := 0
+  -- levels whose resume decided what they see (sticky for the rest of the run)
+  let mut decided : List (Nat × Seen StL) := []
+  for pj in prog ++ [Json.null] do
+    for (p, active, modD) in cuts do
+      if p == pos then
+        -- interrupt here: checkpoint every active level, then resume
+        let lv : List (Option (StL → StL) × Option StL) := active.map fun l =>
+          let depth := (levels[l]?.map (·.depth)).getD 0
+          let m : Option (StL → StL) := modD.map fun d => fun (s : StL) =>
+            { s with ctr := s.ctr.modify 0 (· + d * (depth + 1)) }
+          let own := (levels[l]?.map (·.stateful)).getD false && st.vis.getD l none == some l
+          (m, if own then st.cells[l]? else none)
+        atCut := atCut ++ [J.mkArr ((active.zip lv).filterMap fun (l, x) =>
+          x.2.map fun s => Json.mkObj [("l", (l : Json)), ("ctr", J.mkNats s.ctr),
+            ("seq", (s.seq : Json)), ("order", J.mkNats s.order)])]
+        let seen := resumePath Expected.C11.topResume Expected.C11.subResume lv
+        for (l, sn) in active.zip seen do
+          decided := (decided.filter (·.1 != l)) ++ [(l, sn)]
+          match sn with
+          | .own s => st := { st with cells := st.cells.set l s }
+          | .inherited => pure ()
+        let dec := decided
+        st := { st with vis := visOf levels (fun i => (dec.find? (·.1 == i)).map (·.2)) }
+    if pj != Json.null then
+      st ← chainOp st (← J.nat pj "l") (← J.nat pj "g") (← J.field pj "op")
+    pos := pos + 1
+  pure <| Json.mkObj [
+    ("out", Json.str st.v),
+    ("err", match st.err with | some e => Json.str e | none => Json.null),
+    ("cells", J.mkArr (st.cells.map stLJson)),
+    ("vis", J.mkArr (st.vis.map fun | some a => (a : Json) | none => Json.null)),
+    ("touched", J.mkArr (st.touched.map J.mkNats)),
+    ("atCut", J.mkArr atCut)]
+
+/-! ### resume family: restored and later-created tasks, which mutex -/
+
+def noGuardL : SysL St V → Nat → Bool := fun _ _ => true
+
+def sweepsL (lockOf : Nat → Nat) : Nat → Nat → SysL St V → SysL St V
+  | 0, _, sys => sys
+  | fuel + 1, n, sys =>
+    let live := (List.range n).filter fun t =>
+      !(pending sys.core t).isEmpty || (match sys.phase t with | .idle => false | _ => true)
+    if live.isEmpty then sys
+    else sweepsL lockOf fuel n (runL lockOf Expected.C11.locks.of noGuardL live sys)
+
+def handleLocks (c : Json) : JE Json := do
+  let s0 ← parseSt (← J.field c "init")
+  let ths ← (← J.arr c "tasks").mapM parseTask
+  let f := if J.boolD c "top" true then Expected.C11.topResume else Expected.C11.subResume
+  let lockOf := resumeLockOf f.oneHolder (← J.nat c "restored")
+  let n := ths.length
+  let ops := (ths.map (·.1.length)).foldl (· + ·) 0
+  let seed := J.natD c "micro" 1
+  let sys := runL lockOf Expected.C11.locks.of noGuardL (randSched (3 * ops) seed (max n 1)) (initL s0 ths)
+  let fin := sweepsL lockOf (4 * ops + 4) n sys
+  pure <| Json.mkObj [
+    ("locks", J.mkNats ((List.range n).map lockOf)),
+    ("done", Json.bool (allDone fin.core)),
+    ("ctr", J.mkNats fin.core.shared.ctr), ("seq", (fin.core.shared.seq : Json))]
+
 def handle (c : Json) : JE Json := do
   match (← J.str c "k") with
   | "run" => handleRun c
   | "alloc" => handleAlloc c
+  | "chain" => handleChain c
+  | "locks" => handleLocks c
   | k => throw s!"bad case kind {k}"
 
 end EinoV.Oracle.C11
